@@ -8,6 +8,7 @@ From Gods Require Model.RBTree.
 From Gods Require Import Proofs.C05Proofs.
 From GodsGen Require TreeBidiMapGen.
 From GodsGenProofs Require Import GenIterRun WrapCommon GoCmp.
+From GodsGenProofs Require GoJson.
 Import ListNotations.
 Local Open Scope Z_scope.
 
@@ -25,6 +26,7 @@ Definition IF : B.forwardMap_iface := B.mk_forwardMap_iface rbtree
   (fun s => upd_tree s (fun _ _ => Some rbs_empty))
   (fun s => on_tree s true (fun _ r => snd r =? 0))
   (fun s k => on_tree s (None, false) (fun cmp r => node_res (RB.floor cmp k (fst r))))
+  (fun s d => (s, true))   (* FromJSON(data): placeholder (always an error); the wrappers' delegation is proved for ANY interface *)
   (fun s k => on_tree s (0, false) (fun cmp r => opt_pair (rbs_get cmp k r)))
   (fun s => on_tree s [] (fun _ r => RB.keys (fst r)))
   (fun s => on_tree s None (fun _ r => RB.leftmost (fst r)))
@@ -32,6 +34,7 @@ Definition IF : B.forwardMap_iface := B.mk_forwardMap_iface rbtree
   (fun s k => upd_tree s (fun cmp r => rbs_remove cmp k r))
   (fun s => on_tree s None (fun _ r => RB.rightmost (fst r)))
   (fun s => on_tree s 0 (fun _ r => snd r))
+  (fun s => (GoJson.nil_bytes, true))   (* ToJSON(): placeholder *)
   (fun s => on_tree s [] (fun _ r => RB.values (fst r)))
   (fun s => fst s)
   (GoCmp.compare, Some rbs_empty)
@@ -41,6 +44,7 @@ Definition II : B.inverseMap_iface := B.mk_inverseMap_iface rbtree
   (fun s => upd_tree s (fun _ _ => Some rbs_empty))
   (fun s => on_tree s true (fun _ r => snd r =? 0))
   (fun s k => on_tree s (None, false) (fun cmp r => node_res (RB.floor cmp k (fst r))))
+  (fun s d => (s, true))   (* FromJSON(data): placeholder (always an error); the wrappers' delegation is proved for ANY interface *)
   (fun s k => on_tree s (0, false) (fun cmp r => opt_pair (rbs_get cmp k r)))
   (fun s => on_tree s [] (fun _ r => RB.keys (fst r)))
   (fun s => on_tree s None (fun _ r => RB.leftmost (fst r)))
@@ -48,6 +52,7 @@ Definition II : B.inverseMap_iface := B.mk_inverseMap_iface rbtree
   (fun s k => upd_tree s (fun cmp r => rbs_remove cmp k r))
   (fun s => on_tree s None (fun _ r => RB.rightmost (fst r)))
   (fun s => on_tree s 0 (fun _ r => snd r))
+  (fun s => (GoJson.nil_bytes, true))   (* ToJSON(): placeholder *)
   (fun s => on_tree s [] (fun _ r => RB.values (fst r)))
   (fun s => fst s)
   (GoCmp.compare, Some rbs_empty)
@@ -64,7 +69,7 @@ Module Names.
 Import Coq.Strings.String.
 (* OBLIGATION *)
 Theorem translated_functions :
-  B.translated = ["All"; "Any"; "Clear"; "Empty"; "Find"; "Get"; "GetKey"; "Keys"; "Map_Map"; "New"; "NewWith"; "Put"; "Remove"; "Select"; "Size"; "Values"]%string
+  B.translated = ["All"; "Any"; "Clear"; "Empty"; "Find"; "FromJSON"; "Get"; "GetKey"; "Keys"; "Map_Map"; "MarshalJSON"; "New"; "NewWith"; "Put"; "Remove"; "Select"; "Size"; "ToJSON"; "UnmarshalJSON"; "Values"]%string
   /\ B.skipped = ["Each"; "String"]%string /\ B.not_selected = [].
 Proof. repeat split. Qed.
 Print Assumptions translated_functions.
